@@ -164,6 +164,10 @@ func init() {
 		},
 		seeds: func(r *h.Rand) [][]byte {
 			var out [][]byte
+			// well-formed protocol-control bodies (truncation then yields every shorter length of each)
+			out = append(out, []byte{1, 0, 0, 16, 0}, []byte{5, 0, 0x26, 0x25, 0xa0}, []byte{6, 0, 0x26, 0x25, 0xa0, 2},
+				[]byte{4, 0, 3, 0, 0, 0, 1, 0, 0, 0x0b, 0xb8}, []byte{4, 0, 0x1a, 1}, []byte{4, 0, 6, 0, 0, 0x0d, 0x0f},
+				[]byte{4, 0, 0, 0, 0, 0, 1}, []byte{4, 0, 7, 1, 2, 3, 4}, []byte{4, 0xff, 0xff, 1, 2, 3, 4})
 			for _, ty := range []byte{1, 4, 5, 6, 15, 17, 18, 20} {
 				cp := rtmp.NewConnectAppPacket()
 				cp.CommandObject.Set("k", amf0Tree(r, 2))
@@ -463,14 +467,18 @@ func c07(c *h.Ctx) {
 			if len(b) > d.maxLen {
 				b = b[:d.maxLen]
 			}
-			st, dt := guarded(func() { d.run(b) }, 10*time.Second)
+			st, dt := guarded(func() { d.run(b) }, 5*time.Second)
 			if dt > slowest[d.name] {
 				slowest[d.name] = dt
 			}
 			in := d.name + " " + h.Trunc(h.Hex(b), 4000)
 			c.Hold(!strings.HasPrefix(st, "panic"), "no_panic", in, st, "value or error")
-			c.Hold(st != "stall", "returns", in, st, "returns within 10 s")
+			c.Hold(st != "stall", "returns", in, st, "returns within 5 s")
 			c.Case(d.name+"/"+kind, in, len(b) > 0)
+			if st == "stall" {
+				c.Note("decoder " + d.name + " stalled: no further inputs are tried on it (the stalled call keeps running)")
+				break
+			}
 		}
 	}
 	for k, v := range slowest {
